@@ -31,6 +31,18 @@ class Cli:
         self.runs = 0
         self.injected = 0
         self.refsum = None
+        self.shim = None
+
+    def block_shim(self):
+        """LD_PRELOAD object that makes /dev/urandom, /dev/random, /dev/hwrng unopenable (h/devrandom_block.c)"""
+        if self.shim is None:
+            so = os.path.join(self.root, 'devrandom_block.so')
+            p = subprocess.run(['gcc', '-shared', '-fPIC', '-O1', '-o', so, os.path.join(core.VERIF, 'h', 'devrandom_block.c'), '-ldl'],
+                               stdout=subprocess.PIPE, stderr=subprocess.STDOUT, text=True)
+            if p.returncode:
+                raise core.HarnessError('devrandom_block.c does not compile: ' + p.stdout)
+            self.shim = so
+        return self.shim
 
     def workdir(self):
         self.n += 1
@@ -38,11 +50,14 @@ class Cli:
         os.makedirs(d)
         return d
 
-    def run(self, argv, cwd, stdin=None, inject=None, path_filter=None, timeout=120):
+    def run(self, argv, cwd, stdin=None, inject=None, path_filter=None, timeout=120, block_random_devices=False):
         """-> (rc, stdout bytes, stderr text, injected count)"""
         self.runs += 1
         cmd = list(argv)
         log = None
+        env = self.env
+        if block_random_devices:
+            env = dict(self.env, LD_PRELOAD=self.block_shim(), VF_BLOCK_LOG=os.path.join(cwd, 'blocked.log'))
         if inject:
             log = os.path.join(cwd, 'strace.%d.log' % self.runs)
             cmd = ['strace', '-f', '-o', log, '-e', 'trace=' + inject.split(':')[0], '-e', 'inject=' + inject]
@@ -50,10 +65,13 @@ class Cli:
                 cmd += ['-P', os.path.join(cwd, path_filter)]
             cmd += list(argv)
         try:
-            p = subprocess.run(cmd, cwd=cwd, input=stdin, stdout=subprocess.PIPE, stderr=subprocess.PIPE, env=self.env, timeout=timeout)
+            p = subprocess.run(cmd, cwd=cwd, input=stdin, stdout=subprocess.PIPE, stderr=subprocess.PIPE, env=env, timeout=timeout)
             rc, out, err = p.returncode, p.stdout, p.stderr.decode('utf8', 'replace')
         except subprocess.TimeoutExpired:
             rc, out, err = 'timeout', b'', ''
+        if block_random_devices and os.path.exists(os.path.join(cwd, 'blocked.log')):
+            self.ctx.counters['random_device_opens_blocked'] = self.ctx.counters.get('random_device_opens_blocked', 0) + 1
+            os.unlink(os.path.join(cwd, 'blocked.log'))
         inj = 0
         if log and os.path.exists(log):
             with open(log, errors='replace') as f:
@@ -327,10 +345,10 @@ def iofault(ctx, cli, rng, size, pw):
         nr = cli.count_syscalls(argv, d, 'read', inp)
         ctx.distinct.add('iofault|%s|size%d|writes%d|reads%d' % (opname, size, nw, nr))
 
-        def expect_fail(inject, pf, what, k):
+        def expect_fail(inject, pf, what, k, block_random_devices=False):
             if os.path.exists(outpath):
                 os.unlink(outpath)
-            rc, _, err, inj = cli.run(argv, d, inject=inject, path_filter=pf)
+            rc, _, err, inj = cli.run(argv, d, inject=inject, path_filter=pf, block_random_devices=block_random_devices)
             if inj == 0:
                 ctx.counters['injections_not_reached'] = ctx.counters.get('injections_not_reached', 0) + 1
                 return
@@ -366,8 +384,23 @@ def iofault(ctx, cli, rng, size, pw):
             expect_ok('read:error=EINTR:when=%d' % k, inp, 'read-EINTR', k)
         expect_fail('openat:error=EACCES:when=1', outp, 'open-output-EACCES', 1)
         if opname == 'encrypt':
+            # "the random source fails": EVERY getrandom call fails and the random device files cannot be opened.  (A single
+            # refused call is not a failed source if the tool gets its entropy another way: then it may fail closed or succeed.)
+            expect_fail('getrandom:error=ENOSYS', None, 'random-source-unavailable', 0, block_random_devices=True)
             for k in (1, 2):
-                expect_fail('getrandom:error=ENOSYS:when=%d' % k, None, 'getrandom-ENOSYS', k)
+                if os.path.exists(outpath):
+                    os.unlink(outpath)
+                rc, _, err, inj = cli.run(argv, d, inject='getrandom:error=ENOSYS:when=%d' % k)
+                if inj and rc == 0:
+                    rc2, _, _, _ = cli.run([cli.crypt, '-d', '-p', pw, '-o', 'chk.dec', outp], d)
+                    okk = rc2 == 0 and os.path.exists(os.path.join(d, 'chk.dec')) and open(os.path.join(d, 'chk.dec'), 'rb').read() == data
+                    ctx.counters['single_getrandom_failure_survived'] = ctx.counters.get('single_getrandom_failure_survived', 0) + 1
+                    if not okk:
+                        vio(ctx, cli, 'C19', 'asconcrypt:iofault:exit-zero-with-unusable-output:getrandom-ENOSYS', k=k, size=size, decrypt_exit=rc2)
+                elif inj and os.path.exists(outpath):
+                    vio(ctx, cli, 'C19', 'asconcrypt:iofault:partial-output-left:%s:getrandom-ENOSYS' % opname, k=k, size=size, exit=rc)
+                elif inj:
+                    ctx.counters['single_getrandom_failure_failed_closed'] = ctx.counters.get('single_getrandom_failure_failed_closed', 0) + 1
             expect_ok('getrandom:error=EINTR:when=1', None, 'getrandom-EINTR', 1)
     if len(ctx.samples) < 6:
         ctx.samples.append({'kind': 'iofault', 'size': size, 'faults': 'k-th write ENOSPC / EINTR, k-th read EIO / EINTR for every k; open EACCES; getrandom ENOSYS/EINTR'})
@@ -392,10 +425,11 @@ def genkey(ctx, cli):
         rc2, _, _, _ = cli.run([cli.crypt, '-d', '-p', k[:-1].decode(), '-o', 'o', 'e'], d)
         if rc1 or rc2 or open(os.path.join(d, 'o'), 'rb').read() != b'hello':
             vio(ctx, cli, 'C19', 'asconcrypt:genkey:not-usable', rc1=rc1, rc2=rc2)
-    for inject, what in (('write:error=ENOSPC:when=1', 'write-ENOSPC'), ('getrandom:error=ENOSYS:when=1', 'getrandom-ENOSYS')):
+    for inject, what in (('write:error=ENOSPC:when=1', 'write-ENOSPC'), ('getrandom:error=ENOSYS', 'random-source-unavailable')):
         if os.path.exists(kp):
             os.unlink(kp)
-        rc, _, err, inj = cli.run([cli.crypt, '-g', 'k.txt'], d, inject=inject, path_filter='k.txt' if inject.startswith('write') else None)
+        rc, _, err, inj = cli.run([cli.crypt, '-g', 'k.txt'], d, inject=inject, path_filter='k.txt' if inject.startswith('write') else None,
+                                  block_random_devices=inject.startswith('getrandom'))
         if inj and rc == 0:
             vio(ctx, cli, 'C19', 'asconcrypt:genkey:exit-zero:%s' % what, inject=inject, keyfile_exists=os.path.exists(kp),
                 keyfile_size=os.path.getsize(kp) if os.path.exists(kp) else None)
